@@ -1,5 +1,6 @@
 """C16 - the serial MPI emulation (sc_mpi.c without SC_ENABLE_MPI) behaves like MPI on one rank.
-T1: sc_mpi_sizeof regenerated from /repo (Gen/MpiC16.v) and proved to give the ABI sizes.
+T1: sc_mpi_sizeof (serial and MPI configuration) and the whole bodies of the 32 modelled stubs regenerated from /repo (Gen/MpiC16.v);
+    sizes proved to be the ABI sizes, bodies proved equal to the model (coq/C16/MpiGen.v, theorems C16_gen_*).
 T2: model coq/C16/MpiModel.v of every stub, theorems against the one-rank specification MpiSpec1.v.
 Tie / search: ONE driver program (tools/harness/c16_driver.c, written against sc_MPI_*) is compiled against the
 serial libsc build and against a libsc built with OpenMPI; both and the extracted model process the same case file
@@ -12,6 +13,7 @@ Case lines:
   reduce|allreduce|reduce_scatter_block|scan|exscan OP T count srchex rlen      bcast T count bufhex     barrier
   pack T incount outsize position inhex     unpack T outcount position inhex olen     packsize T n   typesize T   sizeof T
   comm color key    group    wait|waitall|testall|waitsome n withstatus    wtime    errclass NAME idx    errstring NAME
+  packbig|unpackbig T count limit position (unfilled buffer of `limit` <= INT_MAX bytes: code and position only)
   errtext NAME idx (text and length stored)    errclassx|errtextx CODE (a number that is none of the 21 codes; serial build only)"""
 import os, sys, json
 import vlib
@@ -121,6 +123,14 @@ def expected(line, impl):
                 if i * ext + o < olen:
                     out[i * ext + o] = src[pos + i * size + o] if o < size else "??"
         return ["0", str(pos + n * size), out], known
+    if c in ("packbig", "unpackbig"):
+        # positions near INT_MAX in a buffer of `limit` bytes: code and position only
+        T, n, limit, pos = t[1], int(t[2]), int(t[3]), int(t[4])
+        need = pos + n * TYPES[T][0]
+        known = need >= 2 ** 31
+        if need > limit:
+            return ["E", str(pos)], known
+        return ["0", str(need)], known
     if c == "packsize":
         T, n = t[1], int(t[2])
         want = n * TYPES[T][0]
@@ -277,6 +287,23 @@ def gen_cases(ctx):
     return cases
 
 
+def gen_big(ctx):
+    """Pack / Unpack with positions near INT_MAX (each runs in its own process: the sanitizer stops at a signed overflow)"""
+    rng = ctx.rng
+    M = 2 ** 31 - 1
+    big = ["packbig BYTE 2 %d %d" % (M, M - 1), "unpackbig BYTE 2 %d %d" % (M, M - 1),       # position + size = 2^31: does not fit
+           "packbig BYTE 1 %d %d" % (M, M - 1), "unpackbig INT 1 %d %d" % (M, M - 4),         # exact fit at INT_MAX
+           "packbig BYTE 2 %d %d" % (M - 1, M - 2), "unpackbig SHORT 1 %d %d" % (M - 1, M - 2),   # position + size = INT_MAX > limit
+           "packbig INT 2 1610612736 1610612732", "packbig DOUBLE 0 %d %d" % (M, M)]
+    for _ in range(2 if ctx.quick else 12):
+        T = rng.choice(["BYTE", "SHORT", "INT", "LONG", "LONG_DOUBLE"])
+        limit = M - rng.randrange(0, 40)
+        n = rng.randrange(0, 4)
+        pos = max(0, limit - n * TYPES[T][0] + rng.choice([-1, 0, 0, 1, TYPES[T][0]]))
+        big.append("%s %s %d %d %d" % (rng.choice(["packbig", "unpackbig"]), T, n, limit, min(pos, limit)))
+    return big
+
+
 def run(ctx):
     import genall
     st = genall.run(["MpiC16"])
@@ -326,6 +353,55 @@ def run(ctx):
     except vlib.BuildError as e:
         ctx.tie_broken("OpenMPI build of libsc/driver", str(e)[-1500:])
 
+    # ---- positions near INT_MAX: one process per case for the serial build (sanitizer), one run for model and OpenMPI
+    big = gen_big(ctx)
+    bf = os.path.join(ctx.scratch, "c16_big.txt")
+    open(bf, "w").write("\n".join(big) + "\n")
+    big_serial = []
+    for k, line in enumerate(big):
+        one = os.path.join(ctx.scratch, "c16_big_%d.txt" % k)
+        open(one, "w").write(line + "\n")
+        rcb, outb, errb = ctx.run_lines([exe_s, one], "", timeout=300, env=dict(os.environ, ASAN_OPTIONS="detect_leaks=1"))
+        outb = [l for l in outb if l != ""]
+        if rcb == 0 and len(outb) == 3:
+            big_serial.append(outb[1])
+        else:
+            big_serial.append(None)
+            _, known = expected(line, "serial")
+            what = "signed integer overflow" if "signed integer overflow" in errb else "exit %s" % rcb
+            if known:
+                ctx.violation("pack-position-overflow", "`%s`: serial driver stopped (%s): %s" % (line, what, errb[-600:]), dict(case=line, stderr=errb[-2000:]))
+            else:
+                ctx.violation("crash:" + line[:60], "serial driver stopped (%s) at `%s`: %s" % (what, line, errb[-1500:]), dict(case=line, stderr=errb[-3000:]))
+    big_model, big_ompi = [], []
+    if model:
+        rcm, big_model, errm = ctx.run_lines([mexe, bf], "", timeout=300)
+        big_model = [l for l in big_model if l != ""][1:-1]
+    if ompi:
+        rco, big_ompi, erro = ctx.run_lines(["mpirun", "--allow-run-as-root", "--oversubscribe", "-np", "1", exe_m, bf], "", timeout=600, env=env)
+        big_ompi = [l for l in big_ompi if l != ""][1:-1]
+        if rco != 0 or len(big_ompi) != len(big):
+            ctx.tie_broken("OpenMPI run of the driver (positions near INT_MAX)", "exit %s, %d of %d lines: %s" % (rco, len(big_ompi), len(big), erro[-800:]))
+            big_ompi = []
+    nbig_known = 0
+    for k, line in enumerate(big):
+        ctx.count_case(line, nontrivial=True)
+        so = big_serial[k]
+        _, known = expected(line, "serial")
+        nbig_known += 1 if known else 0
+        if so is not None:
+            bad, _ = judge(line, so, "serial")
+            if bad:
+                ctx.violation("pack-position-overflow" if known else "c16:" + line[:70],
+                              "`%s`: serial emulation printed `%s`: %s" % (line, so, "; ".join(bad[:3])), dict(case=line, serial=so))
+            if big_model and not known and so.replace(" GUARD", "") != big_model[k]:
+                ctx.tie_broken("model/implementation correspondence", "`%s`: serial libsc prints `%s`, model prints `%s`" % (line, so, big_model[k]))
+        if big_ompi:
+            badm, _ = judge(line, big_ompi[k], "mpi")
+            if badm:
+                ctx.tie_broken("one-rank specification validated against OpenMPI", "`%s`: OpenMPI prints `%s`: %s" % (line, big_ompi[k], "; ".join(badm[:3])))
+    ctx.notes["positions_near_INT_MAX"] = dict(cases=len(big), in_domain_of_F_C16c=nbig_known, serial_stopped=sum(1 for x in big_serial if x is None))
+
     dist = {}
     nbad = nknown = ndis = nspec = nraw = 0
     dev = {"waitsome_outcount_serial_vs_mpi": set(), "status_arrays": set()}
@@ -368,8 +444,9 @@ def run(ctx):
     ctx.cov["rule"] = ("every collective x 15 datatypes x counts 0,1,2,3,5,8 (x displacements 0,1,2,5 for the v-variants; x two valid "
                        "operations per type for reductions) with random bytes and receive buffers longer than needed; pack/unpack at "
                        "position + count*size - 1, exact, + 1 relative to the buffer size; pack/type sizes; communicator, group and "
-                       "completion calls with 0..17 null requests with and without status arrays; error classes and strings of the 21 "
-                       "codes; a case is non-trivial unless it is barrier/wtime/group; distinct = distinct case lines")
+                       "completion calls with 0..17 null requests with and without status arrays; error classes, strings and stored texts of the 21 "
+                       "codes, 14 numbers that are no code (13999, 14001, 14021, INT_MIN/MAX, random); Pack/Unpack with positions near INT_MAX "
+                       "(exact fit at INT_MAX, sum = INT_MAX > limit, sum = 2^31: F-C16c; one process each); a case is non-trivial unless it is barrier/wtime/group; distinct = distinct case lines")
     ctx.cov["exhaustive"] = False
     ctx.notes["case_distribution"] = dist
     ctx.notes["oracle_violations"] = nbad
@@ -385,7 +462,8 @@ def run(ctx):
                 "OpenMPI's receive buffer after Exscan on rank 0 and padding bytes inside elements are not compared"}
     for c in cases[:: max(1, len(cases) // 4)][:4]:
         ctx.sample({"case": c[:200]})
-    ctx.cov["trusted_base"] += ["tools/c2g translator and clang-14's JSON AST for sc_mpi_sizeof (mitigated: the extracted generated function runs in the model driver against the compiled C)",
+    ctx.cov["trusted_base"] += ["tools/c2g translator (c2g.py, slicelib.py, local conventions of groups_C16.py) and clang-14's JSON AST for sc_mpi_sizeof (serial and with OpenMPI's mpi.h) and the bodies of 32 stubs (mitigated: the extracted generated sc_mpi_sizeof runs in the model driver against the compiled C; every generated body is proved equal to the model the run compares with the compiled C)",
+                                "snprintf's contract (\"%s\": returns the length of the argument) in C16_gen_error_string_model",
                                 "the one-rank MPI specification MpiSpec1.v / its Python restatement (validated against OpenMPI 4 on every run)",
                                 "LP64 type sizes and extents (table in MpiSpec1.v, compared with OpenMPI's MPI_Type_size/Pack on every run)",
                                 "OpenMPI, mpirun"]
